@@ -1,1 +1,37 @@
 // Kani harnesses compiled as `mod verif_kani` inside /repo/src/server/ca/roa.rs (cfg(kani) only).
+//
+// Kernel: RoaAggregateKey::from_str (object names / stored keys "AS<n>[-<group>]").
+use super::*;
+use crate::api::roa::verif_kani::any_ascii;
+
+fn check_agg<const N: usize>() {
+    let (buf, len) = any_ascii::<N>();
+    let Ok(s) = std::str::from_utf8(&buf[..len]) else { return };
+    let r = RoaAggregateKey::from_str(s);
+    if r.is_ok() {
+        assert!(len >= 3 && buf[0] == b'A' && buf[1] == b'S');
+    }
+    kani::cover!(r.is_ok());
+    kani::cover!(r.is_err() && len >= 2 && buf[0] == b'A' && buf[1] == b'S');
+    std::mem::forget(r);
+}
+
+/// No panic (in particular no out-of-range `[2..]` slice) for every string of
+/// up to 4 (quick) / 6 (thorough) ASCII bytes; accepted strings start with "AS" + at least one char.
+// vk: timeout=900; bound=0..=4 ASCII bytes
+#[kani::proof]
+#[kani::unwind(6)]
+fn c16c_aggregate_key_from_str_4() {
+    check_agg::<4>();
+}
+
+// vk: tier=thorough; timeout=2400; bound=0..=6 ASCII bytes
+#[kani::proof]
+#[kani::unwind(8)]
+fn c16c_aggregate_key_from_str_6() {
+    check_agg::<6>();
+}
+
+#[cfg(test)]
+#[path = "/verif/.cache/playback/server_ca_roa.rs"]
+mod playback;
